@@ -345,6 +345,13 @@ func TestC19(t *testing.T) {
 						c.Class("query-for-a-name-of-170-characters")
 					}
 					qname = lbl + ".myco."
+					if c.Chance("q.foreign-suffix", 1, 8) {
+						// ... as a stub resolver with a search domain asks: the name the
+						// sources may hold, followed by labels of another zone. That is
+						// not a name under .myco.
+						qname += core.OneOf(c, "q.foreign-suffix.zone", "example.com.", "lan.", "local.", "com.", "myco.example.")
+						c.Class("query-for-a-myco-name-followed-by-a-foreign-zone")
+					}
 				case 1:
 					qname = core.OneOf(c, "q.other", "example.com.", "myco.example.", "alice.mycox.", "alice.myco.com.", "router.", "alicemyco.", ".")
 				case 2:
@@ -425,6 +432,7 @@ func TestC19(t *testing.T) {
 			}
 
 			w := &c19Writer{}
+			sentName := req.Question[0].Name // (the handler gets the message itself: judge by what was sent)
 			srv.ServeDNS(w, req)
 			desc := fmt.Sprintf("%q type=%d class=%d", qname, qtype, qclass)
 			c.Note("query %s", desc)
@@ -436,7 +444,7 @@ func TestC19(t *testing.T) {
 			}
 			rep := w.msgs[0]
 
-			lower := strings.ToLower(req.Question[0].Name)
+			lower := strings.ToLower(sentName)
 			underMyco := strings.HasSuffix(lower, ".myco.")
 			norm := strings.TrimSuffix(lower, ".")
 			typeOK := qtype == mdns.TypeA || qtype == mdns.TypeAAAA || qtype == mdns.TypeSVCB || qtype == mdns.TypeHTTPS || qtype == mdns.TypeANY
@@ -455,10 +463,10 @@ func TestC19(t *testing.T) {
 			if underMyco {
 				seen := false
 				for _, sp := range asked[norm] {
-					seen = seen || sp == req.Question[0].Name
+					seen = seen || sp == sentName
 				}
 				if !seen {
-					asked[norm] = append(asked[norm], req.Question[0].Name)
+					asked[norm] = append(asked[norm], sentName)
 				}
 			}
 			var aaaa []netip.Addr
@@ -479,7 +487,7 @@ func TestC19(t *testing.T) {
 						if ip, ok := netip.AddrFromSlice(a.AAAA); ok {
 							aaaa = append(aaaa, ip)
 						}
-						if !strings.EqualFold(a.Hdr.Name, req.Question[0].Name) {
+						if !strings.EqualFold(a.Hdr.Name, sentName) {
 							c.Fatalf("query %s: AAAA record is for %q", desc, a.Hdr.Name)
 						}
 					}
@@ -536,7 +544,7 @@ func TestC19(t *testing.T) {
 			if typeOK {
 				tclass = fmt.Sprint(qtype)
 			}
-			key := fmt.Sprintf("%s|%s|type=%s|class=%d|under=%v", strings.Join(present, "+"), c19Variant(req.Question[0].Name), tclass, qclass, underMyco)
+			key := fmt.Sprintf("%s|%s|type=%s|class=%d|under=%v", strings.Join(present, "+"), c19Variant(sentName), tclass, qclass, underMyco)
 			c.Eval(key, sources >= 2, func() any {
 				return map[string]any{"query": desc, "sources_holding_name": present, "answered_from": refSrc, "rcode": rep.Rcode}
 			})
